@@ -36,6 +36,10 @@ pub enum Framing {
     Null1e,
     /// 4-byte loopback header carrying AF_INET(2) / AF_INET6(30) in native byte order (what raw_filter.rs reads)
     NullAf,
+    /// 4-byte loopback header whose address-family word is written in a chosen byte order: what captures
+    /// taken on another platform carry (AF_INET6 is 10, 24, 28 or 30 depending on the OS; a big-endian
+    /// capture host writes the word the other way round)
+    NullFamily { fam: u8, big_endian: bool },
 }
 
 #[derive(Clone, Debug, Serialize, Deserialize)]
@@ -236,6 +240,11 @@ pub fn wrap(ip: &[u8], v4: bool, framing: Framing) -> Vec<u8> {
         Framing::NullAf => {
             let fam: u32 = if v4 { 2 } else { 30 };
             let mut f = fam.to_ne_bytes().to_vec();
+            f.extend_from_slice(ip);
+            f
+        }
+        Framing::NullFamily { fam, big_endian } => {
+            let mut f = if big_endian { (fam as u32).to_be_bytes().to_vec() } else { (fam as u32).to_le_bytes().to_vec() };
             f.extend_from_slice(ip);
             f
         }
